@@ -29,6 +29,10 @@ func (a *act) callValue(site ssa.CallInstruction, c *ssa.CallCommon, fnVal Val, 
 	}
 	// call-site assertions
 	a.siteAsserts(site, cs, args, st, reach)
+	if a.caller == nil && e.cur.discovery == 0 {
+		k := fmt.Sprintf("%s#%d", cs.name, cs.ord)
+		e.cur.viaReach[k] = append(e.cur.viaReach[k], viaRec{site.Block(), reach})
+	}
 
 	if c.IsInvoke() {
 		// statically known dynamic type?
@@ -481,7 +485,12 @@ func (a *act) pureSpecUF(fs *FuncSpec, name string, args []Val, rtyp types.Type,
 		}
 	}
 	for _, r := range fs.Reads {
-		for _, h := range e.heapsMatching(r) {
+		hs := e.heapsMatching(r)
+		if len(hs) == 0 {
+			// a reads entry that names nothing would silently drop a dependency
+			e.cur.anchorErrs = append(e.cur.anchorErrs, fmt.Sprintf("%s/anchor:reads %s", name, r))
+		}
+		for _, h := range hs {
 			t := e.heapGet(st, h, e.cur.heapSorts[h])
 			ats = append(ats, t)
 			sorts = append(sorts, t.Sort)
@@ -511,6 +520,36 @@ func (a *act) pureSpecUF(fs *FuncSpec, name string, args []Val, rtyp types.Type,
 
 // heapsMatching: "d2graph.Object.ID" -> heap family names of that field (all leaves)
 func (e *Engine) heapsMatching(pat string) []string {
+	if strings.HasPrefix(pat, "elems(") && strings.HasSuffix(pat, ")") {
+		// elems(pkg.Type) / elems(*pkg.Type): the backing arrays of slices with that element type
+		inner := strings.TrimSuffix(strings.TrimPrefix(pat, "elems("), ")")
+		ptr := strings.HasPrefix(inner, "*")
+		inner = strings.TrimPrefix(inner, "*")
+		parts := strings.Split(inner, ".")
+		var out []string
+		if len(parts) != 2 {
+			return nil
+		}
+		for _, p := range e.pkgs {
+			if p.Name != parts[0] || p.Types == nil {
+				continue
+			}
+			obj := p.Types.Scope().Lookup(parts[1])
+			if obj == nil {
+				continue
+			}
+			var et types.Type = obj.Type()
+			if ptr {
+				et = types.NewPointer(et)
+			}
+			for _, l := range e.layout(et) {
+				name := elemHeapName(et, l.Path)
+				e.cur.heapSorts[name] = arrSort(SInt, arrSort(SInt, l.Sort))
+				out = append(out, name)
+			}
+		}
+		return out
+	}
 	parts := strings.Split(pat, ".")
 	if len(parts) < 2 {
 		return nil
